@@ -58,6 +58,32 @@ impl SendHandler {
         (handler_send, exit_send)
     }
 
+    /// Like `spawn`, but encoded datagrams are pushed to a channel instead of a UDP socket.
+    #[cfg(feature = "verif-hooks")]
+    pub(crate) fn spawn_virtual(
+        executor: Box<dyn Executor>,
+        outbound: mpsc::UnboundedSender<crate::verif::Datagram>,
+    ) -> (mpsc::Sender<OutboundPacket>, oneshot::Sender<()>) {
+        let (exit_send, mut exit) = oneshot::channel();
+        let (handler_send, mut handler_recv) = mpsc::channel::<OutboundPacket>(30);
+
+        executor.spawn(Box::pin(async move {
+            loop {
+                tokio::select! {
+                    Some(packet) = handler_recv.recv() => {
+                        let encoded_packet = packet.packet.encode(&packet.node_address.node_id);
+                        METRICS.add_sent_bytes(encoded_packet.len());
+                        let _ = outbound.send((packet.node_address.socket_addr, encoded_packet));
+                    }
+                    _ = &mut exit => {
+                        return;
+                    }
+                }
+            }
+        }));
+        (handler_send, exit_send)
+    }
+
     /// The main future driving the send handler. This will shutdown when the exit future is fired.
     async fn start(&mut self) {
         loop {
